@@ -485,6 +485,56 @@ def _points(e, pc, n, seed, domain=None, extra=()):
                 break
         if ok:
             out.append(pt)
+    # branch coverage: a residue with Piecewise terms (symbolic select / where in the code) must be tested on both sides of every
+    # branch condition that is reachable inside the region -- the default box [-2, 2] (positive: [0.1, 2]) can miss a branch such
+    # as `x*y < 1e-2`; search on a logarithmic scale for points that take the missing side
+    conds = set()
+    try:
+        for pw in e.atoms(sp.Piecewise):
+            for _, c in pw.args:
+                if c not in (True, False, sp.true, sp.false):
+                    conds.add(c)
+    except Exception:  # noqa: BLE001
+        conds = set()
+    for c in sorted(conds, key=str)[:12]:
+        for want in (True, False):
+            def val(pt):
+                try:
+                    return bool(c.subs(pt)) == want
+                except TypeError:
+                    return False
+            if any(val(pt) for pt in out):
+                continue
+            for _ in range(400):
+                pt = {}
+                for s in syms:
+                    mag = sp.Rational(rnd.randint(1, 999), 100) * sp.Integer(10) ** rnd.randint(-6, 2)
+                    if s.is_positive:
+                        v = mag
+                    elif s.is_negative:
+                        v = -mag
+                    else:
+                        v = mag if rnd.random() < 0.5 else -mag
+                    if s.is_real is not True and s.is_positive is not True and s.is_negative is not True:
+                        v = v + sp.I * sp.Rational(rnd.randint(-150, 150), 100)
+                    lo, hi = (domain or {}).get(str(s), (None, None))
+                    if lo is not None and not (lo <= sp.re(v) <= hi):
+                        v = sp.Rational(rnd.randint(int(lo * 100), int(hi * 100)), 100)
+                    pt[s] = v
+                if not val(pt):
+                    continue
+                good = True
+                for q in pc or ():
+                    try:
+                        if not bool(q.subs(pt)):
+                            good = False
+                            break
+                    except TypeError:
+                        good = False
+                        break
+                if good:
+                    out.append(pt)
+                    break
     return out
 
 
